@@ -101,10 +101,13 @@ PROPS = {
                         'chained without delimiters (candidate finding F9, ExternalCommand::getSignature is not under contract)', 'the null-build claim end to end'],
     },
     'C11': {
-        'units': ['mkdeps', 'depinfo'],
+        'units': ['mkdeps', 'depinfo', 'shelldeps'],
         'design_ref': 'DESIGN.md section 4, C11',
         'claim': 'Makefile-deps lexer/parser: consumed/produced byte accounting of lexWord, every reported word is a '
-                 'non-empty span of the buffer, rule start/end pairing also on error paths, isWordChar table',
+                 'non-empty span of the buffer, rule start/end pairing also on error paths, isWordChar table; the shell command\'s depfile callbacks record '
+                 'exactly one engine dependency per reported input -- the UNESCAPED word, as is when absolute, otherwise joined to the command\'s working '
+                 'directory and made absolute -- and report the same path to the delegate; dependency-info input records are recorded under their path, '
+                 'missing/output records never',
         'not_decided': ['that a later change to P re-executes the command (paper lemma L1)', 'file reading'],
     },
     'C12': {
@@ -156,12 +159,13 @@ PROPS = {
         'not_decided': ['agreement of scoping / variable evaluation with Ninja itself (needs Ninja as oracle)', 'include/subninja scoping', 'the parser'],
     },
     'C18': {
-        'units': ['ninja_valid'],
+        'units': ['ninja_valid', 'ninjadeps'],
         'design_ref': 'DESIGN.md section 4, C18',
         'claim': 'validity predicates only: a Ninja command result is valid only if it was a success, the command hash is unchanged (generator commands '
                  'excepted: "a changed command line re-runs its command") and every output exists with unchanged file information; an input is valid exactly '
-                 'when it was recorded as existing, still exists and is unchanged; a select-composite result exactly when successful with an unchanged hash',
-        'not_decided': ['convergence to the clean-build state, null rebuilds, order-only and depfile handling, restat/generator/pool semantics, failure '
+                 'when it was recorded as existing, still exists and is unchanged; a select-composite result exactly when successful with an unchanged hash; '
+                 'the depfile callback records the unescaped word normalised against the working directory (once, or not at all when normalisation fails)',
+        'not_decided': ['convergence to the clean-build state, null rebuilds, order-only handling, restat/generator/pool semantics, failure '
                         'propagation (closures over the build context)', 'decoding of the stored value (assumed pure)'],
     },
     'C19': {
